@@ -268,6 +268,7 @@ def index_set(fn, n=4):
 
 
 TRAVERSALS = ["get_amp", "get_m_dep", "get_factor_angle_amp", "get_angle_amp"]
+DECIDED_BY_INTERPRETATION = {"get_amp", "get_m_dep", "get_factor_angle_amp", "get_angle_amp"}
 
 
 def clause_b(repo, chk):
@@ -312,7 +313,9 @@ def clause_b(repo, chk):
             ok_red = any(r.args and norm_text(r.args[0]) == "ret" and any(k.arg == "axis" and norm_text(k.value) == "0" for k in r.keywords) for r in red)
             ok = ok and ok_red
             extra = " reduce_sum(ret, axis=0):%s" % ok_red
-        chk.instance("B-chains", "DecayGroup.%s: work list from chains_idx:%s loop over it:%s append:%s%s" % (name, ok_src, ok_loop, appended, extra))
+        chk.instance("B-chains", "DecayGroup.%s: work list from chains_idx:%s loop over it:%s append:%s%s" % (name, ok_src, ok_loop, appended, extra), nontrivial=False)
+        if name in DECIDED_BY_INTERPRETATION:
+            continue   # B-order / B-sum interpret this traversal: its statement shape is reported, not judged
         if not ok:
             chk.violation("B-chains", fn.key, "traversal", "the traversal must build its work list from all of self.chains_idx, visit every used chain and collect every chain amplitude%s (source ok=%s, loop ok=%s, append=%s%s)" % (" and sum them with reduce_sum(axis=0)" if name == "get_amp" else "", ok_src, ok_loop, appended, extra), file=CORE, line=fn.lineno)
     # selection writers: set_used_chains rebinds the complete list it is given
@@ -495,7 +498,16 @@ def clause_zip(repo, chk):
 
 
 def run(repo, chk, tier):
-    clause_zip(repo, chk)
+    # B-zip: the cached-amplitude models pair parameters and cached parts of the same chain (shared with C05: consumers
+    # of data['cached_amp'] interpreted up to their zip for three chain selections)
+    from .c05_cachedkey import check_cached_key_pairing
+
+    check_cached_key_pairing(repo, chk, rule="B-zip", only_key="cached_amp")
+    from .c03_order import check_cached_fun_guard, check_coherent_sum, check_selection_order
+
+    check_selection_order(repo, chk)
+    check_coherent_sum(repo, chk)
+    check_cached_fun_guard(repo, chk)
     from ..cacheown import check_persistent_state
 
     check_persistent_state(repo, chk, ["tf_pwa/fitfractions.py", "tf_pwa/amp/amp.py"])
